@@ -2,7 +2,7 @@
    option, unit, list, prod, sumbool map to OCaml's; nat, positive, N, Z stay
    inductive).  The entry points fix the generated tables. *)
 From Coq Require Import Extraction ExtrOcamlBasic.
-From YV Require Import PyBase CharTables Replace Checks ShellMap Json Reports.
+From YV Require Import PyBase CharTables Replace Checks ShellMap Json Reports Include.
 
 Definition m_replace_phrases := replace_phrases py_isspace py_isalpha py_word.
 Definition m_finditer := finditer py_isalpha py_word.
@@ -17,5 +17,7 @@ Definition m_run_report := run_report py_isspace.
 Definition m_map_match_position := map_match_position.
 Definition m_run_assemble := run_assemble py_isspace.
 
-Extraction "../_build/model.ml" m_run_report m_map_match_position m_run_assemble m_replace_phrases m_finditer m_parse_rule
+Definition m_file_list := file_list.
+
+Extraction "../_build/model.ml" m_file_list m_run_report m_map_match_position m_run_assemble m_replace_phrases m_finditer m_parse_rule
   m_single_letter_matches m_equation_messages m_create_context.
